@@ -52,27 +52,29 @@ def search_flip(rep, prof, c, o, tab):
     g = TC.case_graph(c)
     E = len(g["edges"])
     wrong = [gid for gid in range(1, len(tab) - 1) if not rel_close(b2f(o["dod_bits"][gid]), float(tab[gid][2]), 1e-9, 1e-12)]
-    for gid in wrong[:4]:
+    wrong.sort(key=lambda gid: tab[gid][2])        # the wrong entry with the smallest true omega is the first to cross zero
+    for gid in wrong[:6]:
         for e in range(E):
             a, b, m, w = g["edges"][e]
             g1 = dict(g, edges=[ed if k != e else (a, b, m, float(Fraction(w) + 1)) for k, ed in enumerate(g["edges"])])
             slope = G.exact_table(g1)[0][gid][2] - tab[gid][2]
             if slope == 0:
                 continue
-            w2 = Fraction(w) + (Fraction(-1, 16) - tab[gid][2]) / slope
-            if w2 <= Fraction(1, 64):
-                continue
-            g2 = dict(g, edges=[ed if k != e else (a, b, m, float(w2)) for k, ed in enumerate(g["edges"])])
-            tab2, _, _ = G.exact_table(g2)
-            div2 = G.divergent_subsets(tab2)
-            if not div2 or any(abs(t[2]) < Fraction(1, 10**9) and t[2] != 0 for t in tab2[1:-1]):
-                continue
-            c2 = G.to_case(g2)
-            o2 = harness("table", dict(cases=[c2]), profile=prof, timeout=120)["results"][0]
-            if TC.impl_outcome(o2) == "ok":
-                rep.violation("property", "[%s] searched from a wrong table entry (subset %d): this graph is accepted although subset %d has omega = %s <= 0 (exact)" % (
-                    prof, gid, div2[0], tab2[div2[0]][2]), case=c2, failing_input=True, what="a divergent graph is accepted")
-                return True
+            for target in (Fraction(-1, 16), Fraction(-1, 256), Fraction(-1, 4096)):      # a wrong omega that is too large by the (small) dod needs a small target
+                w2 = Fraction(w) + (target - tab[gid][2]) / slope
+                if w2 <= Fraction(1, 64):
+                    continue
+                g2 = dict(g, edges=[ed if k != e else (a, b, m, float(w2)) for k, ed in enumerate(g["edges"])])
+                tab2, _, _ = G.exact_table(g2)
+                div2 = G.divergent_subsets(tab2)
+                if not div2 or any(abs(t[2]) < Fraction(1, 10**9) and t[2] != 0 for t in tab2[1:-1]):
+                    continue
+                c2 = G.to_case(g2)
+                o2 = harness("table", dict(cases=[c2]), profile=prof, timeout=120)["results"][0]
+                if TC.impl_outcome(o2) == "ok":
+                    rep.violation("property", "[%s] searched from a wrong table entry (subset %d): this graph is accepted although subset %d has omega = %s <= 0 (exact)" % (
+                        prof, gid, div2[0], tab2[div2[0]][2]), case=c2, failing_input=True, what="a divergent graph is accepted")
+                    return True
     return False
 
 
@@ -86,7 +88,7 @@ def run(rep, rng, tier, replay=None):
     cases += critical_variants(rng, 160 if tier == "quick" else 1000, 6 if tier == "quick" else 7)
     profiles = ["debug"] if tier == "quick" else ["debug", "release"]
     outcomes = {}
-    nsearch = 0
+    nsearch = {}
     for prof in profiles:
         impl, model = TC.run_tables("C05-" + prof, cases, profile=prof, batch=40)
         # determinism: the same graphs once more, in a separate process (different ahash seeds)
@@ -116,8 +118,11 @@ def run(rep, rng, tier, replay=None):
             elif io == "ok" and div:
                 rep.violation("property", "[%s] accepted, but subset %d has omega = %s <= 0 (exact)" % (prof, div[0], tab[div[0]][2]), case=c, failing_input=True)
             elif io == "ok":
-                if nsearch < 8 and any(not rel_close(b2f(o["dod_bits"][gid]), float(tab[gid][2]), 1e-9, 1e-12) for gid in range(1, len(tab) - 1)):
-                    nsearch += 1
+                # two budgets: in a massless graph a wrong spanning flag of a disconnected subset can never cost the verdict (the
+                # component that carries the externals is a smaller spanning subset), so those must not use up the searches
+                bk = "massive" if any(e[2] for e in g["edges"]) else "massless"
+                if nsearch.get(bk, 0) < (10 if bk == "massive" else 4) and any(not rel_close(b2f(o["dod_bits"][gid]), float(tab[gid][2]), 1e-9, 1e-12) for gid in range(1, len(tab) - 1)):
+                    nsearch[bk] = nsearch.get(bk, 0) + 1
                     rep.violation("correspondence", "[%s] verdict agrees but the accepted table holds a wrong omega; searching for a graph on which the verdict flips" % prof, case=c)
                     search_flip(rep, prof, c, o, tab)
                 js = [b2f(x) for x in o["j_bits"]]
